@@ -1,116 +1,50 @@
 (* C12 -- Saved variables reload to the same values.
    Property theorems only; each closed by [exact].  The model is
    Ser/Codec.v (byte-exact writer [ser_*] and reader [de_*] of
-   Context::serialize_variables / deserialize_variables); [cfg_today sz] is
-   the tree being checked, [cfg_pinned sz] the code as pinned, [cfg_fixed sz]
-   the code with notes/C12_scope_flags.patch, C12_builtin_names.patch,
-   C14_prealloc_cap.patch and C14_validate_loaded.patch applied.  [sz] are the
-   element sizes of the build (they only matter for capacity overflow).
+   Context::serialize_variables / deserialize_variables).  [cfg_today sz] is
+   the tree being checked: the code after the fix commits 40160da (scope
+   presence flags) and 3cf46ce (built-in names), 076760b, 4b8e673; the table of
+   function literals is re-extracted from the tree on every run.
+   [cfg_pinned sz] is the code as it was pinned; the theorems about it document
+   the two repaired defects.  [sz] are the element sizes of the build.
    `Equal up to hash-map order': the model keeps a map as the list of entries
    in the order the writer emitted them, and the theorems hold for every such
-   order. *)
-From FendV Require Import Base.Prelude Ser.Generated.BuiltinNames Ser.Codec Ser.Cfg
-  Ser.CodecRT Ser.CodecSafe Ser.NamesProofs Ser.CodecCor.
+   order.
+   wf_codec ([wfc_*], relative to the reader's capacity cap) is what the Rust
+   types guarantee of a value: u64 limbs, u8 fields, usize lengths, UTF-8
+   strings, enums in range, a function literal as_str writes, distinct map
+   keys; wf_sem ([wfs_*]) is what fend's own values satisfy and the loader now
+   checks: base in 2..=36, non-empty limb vectors, non-zero denominators,
+   non-empty identifiers. *)
+From FendV Require Import Base.Prelude Ser.Generated.BuiltinNames Ser.Codec Ser.Cfg Ser.Witness
+  Ser.CodecRT Ser.CodecSafe Ser.NamesProofs Ser.CodecLoaded Ser.CodecCor.
 Open Scope N_scope.
 
-(* Full statement (DESIGN C12_roundtrip):
-     forall v rest, wfv v -> deser_value (ser_value v ++ rest) = Ok (v, rest).
-   It is REFUTED for the pinned reader (two independent defects) ... *)
-Theorem C12_roundtrip_refuted_scope_flag :
-  exists v, wfc_value as_names sizes_x64 v = true /\ wfs_value v = true /\
-            run (de_value_top (cfg_pinned sizes_x64)) (ser_value v) = Err EDeser.
-Proof. exact (ex_intro _ w_closure (conj (proj1 w_closure_wf) (conj (proj2 w_closure_wf) w_closure_fails))). Qed.
-Print Assumptions C12_roundtrip_refuted_scope_flag.
+(* ---- main theorems: the tree being checked, full strength ---- *)
 
-Theorem C12_roundtrip_refuted_builtin_name :
-  exists v, wfc_value as_names sizes_x64 v = true /\ wfs_value v = true /\
-            run (de_value_top (cfg_pinned sizes_x64)) (ser_value v) = Err EDeser.
-Proof. exact (ex_intro _ w_floor (conj (proj1 w_floor_wf) (conj (proj2 w_floor_wf) w_floor_fails))). Qed.
-Print Assumptions C12_roundtrip_refuted_builtin_name.
-
-(* an image fend itself wrote (f = \x.\y.x+y ; g = f 3): the pinned reader
-   rejects it after requesting 7.4e18 bytes (the process aborts) *)
-Theorem C12_saved_closure_image_refuted :
-  de_vars (cfg_pinned sizes_x64) img_closure = (Err EDeser, 7423621035766841344).
-Proof. exact img_closure_today. Qed.
-Print Assumptions C12_saved_closure_image_refuted.
-
-(* ... holds for the tree being checked outside the two listed classes
-   (a closure that captured a scope; a built-in function whose literal
-   try_from_str does not accept), for every well-formed value tree, every
-   trailing input, every build ... *)
-Theorem C12_roundtrip_except_known : forall sz, sizes_okb sz = true -> forall v rest,
-  wfc_value as_names sz v = true -> known_C12 v = false ->
+(* every well-formed value tree, followed by any bytes, reads back as itself
+   and leaves those bytes *)
+Theorem C12_roundtrip : forall sz v rest,
+  wfc_value as_names cap_today sz v = true -> wfs_value v = true ->
   run (de_value_top (cfg_today sz)) (ser_value v ++ rest) = Ok (v, rest).
-Proof. exact roundtrip_except_known. Qed.
-Print Assumptions C12_roundtrip_except_known.
+Proof. exact roundtrip_today. Qed.
+Print Assumptions C12_roundtrip.
 
-(* ... and at full strength for the repaired reader. *)
-Theorem C12_roundtrip_fixed : forall sz, sizes_okb sz = true -> forall v rest,
-  wfc_value as_names sz v = true -> wfs_value v = true ->
-  run (de_value_top (cfg_fixed sz)) (ser_value v ++ rest) = Ok (v, rest).
-Proof. exact roundtrip_fixed. Qed.
-Print Assumptions C12_roundtrip_fixed.
-
-(* the general form behind both: any configuration, any fuel above the
-   nesting depth *)
-Theorem C12_roundtrip_general : forall c asn, sizes_okb (c_sz c) = true ->
-  forall v fuel rest, rt_ok_value c asn v = true -> (fuel_value v <= fuel)%nat ->
-  run (de_value c fuel) (ser_value v ++ rest) = Ok (v, rest).
-Proof. exact value_roundtrip_fuel. Qed.
-Print Assumptions C12_roundtrip_general.
-
-(* whole variables map (Context::serialize_variables / deserialize_variables) *)
-Theorem C12_vars_roundtrip_except_known : forall sz, sizes_okb sz = true -> forall m rest,
-  wfc_vars as_names sz m = true ->
-  forallb (fun kv => negb (known_C12 (snd kv))) m = true ->
+(* the whole variables map *)
+Theorem C12_vars_roundtrip : forall sz m rest,
+  wfc_vars as_names cap_today sz m = true -> wfs_vars m = true ->
   run (de_vars (cfg_today sz)) (ser_vars m ++ rest) = Ok (m, rest).
-Proof. exact vars_roundtrip_except_known. Qed.
-Print Assumptions C12_vars_roundtrip_except_known.
+Proof. exact vars_roundtrip_today. Qed.
+Print Assumptions C12_vars_roundtrip.
 
-Theorem C12_vars_roundtrip_fixed : forall sz, sizes_okb sz = true -> forall m rest,
-  wfc_vars as_names sz m = true -> wfs_vars m = true ->
-  run (de_vars (cfg_fixed sz)) (ser_vars m ++ rest) = Ok (m, rest).
-Proof. exact vars_roundtrip_fixed. Qed.
-Print Assumptions C12_vars_roundtrip_fixed.
+(* DESIGN 3.3: every literal BuiltInFunction::as_str can write is accepted by
+   try_from_str (over the tables extracted from the tree) *)
+Theorem C12_builtin_names : forall n, In n as_names -> In n from_names.
+Proof. exact as_names_accepted_In. Qed.
+Print Assumptions C12_builtin_names.
 
-(* the repaired reader loads the image the pinned one rejects, and writing
-   the result gives back the same bytes *)
-Theorem C12_saved_closure_image_fixed :
-  match run (de_vars (cfg_fixed sizes_x64)) img_closure with
-  | Ok (m, []) => (length m =? 4)%nat && list_N_eqb (ser_vars m) img_closure
-  | _ => false end = true.
-Proof. exact img_closure_fixed. Qed.
-Print Assumptions C12_saved_closure_image_fixed.
-
-(* per-type corollaries used by the correspondence check's reports *)
-Theorem C12_number_roundtrip : forall sz n rest,
-  sizes_okb sz = true -> wfc_number sz n = true ->
-  run (de_value_top (cfg_today sz)) (ser_value (VNum n) ++ rest) = Ok (VNum n, rest).
-Proof. exact (fun sz n rest Hs Hw => roundtrip_except_known sz Hs (VNum n) rest Hw eq_refl). Qed.
-Print Assumptions C12_number_roundtrip.
-
-Theorem C12_string_roundtrip : forall sz s rest,
-  sizes_okb sz = true -> strb s = true ->
-  run (de_value_top (cfg_today sz)) (ser_value (VString s) ++ rest) = Ok (VString s, rest).
-Proof. exact (fun sz s rest Hs Hw => roundtrip_except_known sz Hs (VString s) rest Hw eq_refl). Qed.
-Print Assumptions C12_string_roundtrip.
-
-Theorem C12_date_roundtrip : forall sz y m d rest,
-  sizes_okb sz = true -> yearb y && monthb m && dayb d = true ->
-  run (de_value_top (cfg_today sz)) (ser_value (VDate y m d) ++ rest) = Ok (VDate y m d, rest).
-Proof. exact (fun sz y m d rest Hs Hw => roundtrip_except_known sz Hs (VDate y m d) rest Hw eq_refl). Qed.
-Print Assumptions C12_date_roundtrip.
-
-(* the name tables of BuiltInFunction, extracted from the tree being checked
-   (Ser/Generated/BuiltinNames.v): every literal as_str writes is accepted by
-   try_from_str except the five listed ones; whatever is accepted maps back
-   to the same variant; distinct variants have distinct literals *)
-Theorem C12_builtin_names_except_known : forall n,
-  In n as_names -> mem n known_missing_names = false -> In n from_names.
-Proof. exact as_names_accepted_except_known_In. Qed.
-Print Assumptions C12_builtin_names_except_known.
-
+(* ... one arm per variant in declaration order, distinct literals, and every
+   accepted literal maps back to the variant that writes it *)
 Theorem C12_builtin_names_consistent :
   map fst as_str_table = builtin_variants /\ nodup_b as_names = true /\
   forallb (fun p => match assoc (snd p) from_str_table with
@@ -119,18 +53,85 @@ Theorem C12_builtin_names_consistent :
 Proof. exact (conj as_str_total (conj as_names_nodup from_str_agrees_with_as_str)). Qed.
 Print Assumptions C12_builtin_names_consistent.
 
-Theorem C12_builtin_names_refuted :
+(* the general form: any configuration, any fuel above the nesting depth *)
+Theorem C12_roundtrip_general : forall c asn v fuel rest,
+  rt_ok_value c asn v = true -> (fuel_value v <= fuel)%nat ->
+  run (de_value c fuel) (ser_value v ++ rest) = Ok (v, rest).
+Proof. exact value_roundtrip_fuel. Qed.
+Print Assumptions C12_roundtrip_general.
+
+(* per-type corollaries *)
+Theorem C12_number_roundtrip : forall sz n rest,
+  wfc_number cap_today sz n = true -> wfs_number n = true ->
+  run (de_value_top (cfg_today sz)) (ser_value (VNum n) ++ rest) = Ok (VNum n, rest).
+Proof. exact (fun sz n rest Hw Hs => roundtrip_today sz (VNum n) rest Hw Hs). Qed.
+Print Assumptions C12_number_roundtrip.
+
+Theorem C12_string_roundtrip : forall sz s rest, strb cap_today s = true ->
+  run (de_value_top (cfg_today sz)) (ser_value (VString s) ++ rest) = Ok (VString s, rest).
+Proof. exact (fun sz s rest Hw => roundtrip_today sz (VString s) rest Hw eq_refl). Qed.
+Print Assumptions C12_string_roundtrip.
+
+Theorem C12_date_roundtrip : forall sz y m d rest, yearb y && monthb m && dayb d = true ->
+  run (de_value_top (cfg_today sz)) (ser_value (VDate y m d) ++ rest) = Ok (VDate y m d, rest).
+Proof. exact (fun sz y m d rest Hw => roundtrip_today sz (VDate y m d) rest Hw eq_refl). Qed.
+Print Assumptions C12_date_roundtrip.
+
+(* the images and values that did not survive a reload now do *)
+Theorem C12_saved_closure_image :
+  match run (de_vars (cfg_today sizes_x64)) img_closure with
+  | Ok (m, []) => (length m =? 4)%nat && list_N_eqb (ser_vars m) img_closure
+  | _ => false end = true.
+Proof. exact img_closure_today. Qed.
+Print Assumptions C12_saved_closure_image.
+
+(* ---- the repaired defects (code as pinned) ---- *)
+
+(* fixed 40160da: the closure g of `f = \x.\y.x+y; g = f 3' is well-formed
+   and the pinned reader failed on what the writer produced for it *)
+Theorem C12_pinned_roundtrip_refuted_scope_flag :
+  exists v, wfc_value as_names None sizes_x64 v = true /\ wfs_value v = true /\
+            run (de_value_top (cfg_pinned sizes_x64)) (ser_value v) = Err EDeser.
+Proof. exact (ex_intro _ w_closure (conj (proj1 w_closure_wf) (conj (proj2 (proj2 w_closure_wf)) w_closure_fails_pinned))). Qed.
+Print Assumptions C12_pinned_roundtrip_refuted_scope_flag.
+
+(* fixed 3cf46ce: likewise the built-in function floor *)
+Theorem C12_pinned_roundtrip_refuted_builtin_name :
+  exists v, wfc_value as_names None sizes_x64 v = true /\ wfs_value v = true /\
+            run (de_value_top (cfg_pinned sizes_x64)) (ser_value v) = Err EDeser.
+Proof. exact (ex_intro _ w_floor (conj (proj1 w_floor_wf) (conj (proj2 (proj2 w_floor_wf)) w_floor_fails_pinned))). Qed.
+Print Assumptions C12_pinned_roundtrip_refuted_builtin_name.
+
+(* an image fend itself wrote: the pinned reader rejected it after requesting
+   7.4e18 bytes (the process aborted) *)
+Theorem C12_pinned_saved_closure_image_refuted :
+  de_vars (cfg_pinned sizes_x64) img_closure = (Err EDeser, 7423621035766841344).
+Proof. exact img_closure_pinned. Qed.
+Print Assumptions C12_pinned_saved_closure_image_refuted.
+
+(* the pinned name table lacked mean, arg, floor, ceil, round *)
+Theorem C12_pinned_builtin_names_refuted :
   forallb (fun n => negb (mem n from_names_pinned)) known_missing_names = true.
 Proof. exact pinned_missing. Qed.
-Print Assumptions C12_builtin_names_refuted.
+Print Assumptions C12_pinned_builtin_names_refuted.
+
+(* outside the two classes the pinned reader was already the inverse of the
+   writer *)
+Theorem C12_pinned_roundtrip_except_known : forall sz v rest,
+  wfc_value as_names None sz v = true -> known_pinned v = false ->
+  run (de_value_top (cfg_pinned sz)) (ser_value v ++ rest) = Ok (v, rest).
+Proof. exact roundtrip_pinned_except_known. Qed.
+Print Assumptions C12_pinned_roundtrip_except_known.
 
 (* hypotheses are satisfiable: a curried closure over a number with a unit,
-   a string and a date, in a two-entry map *)
+   an object holding a string and a date, a closure with a captured scope and
+   the built-in floor, in a four-entry map *)
 Example C12_hypotheses_inhabited :
   let kg := mkNU [] (B"kilogram") (B"kilograms") false [(B"kilogram", c_int 1)] (c_int 1) in
   let n := mkNum [(c_int 3, q_int 1)] [mkUE kg (c_int 1)] true (BPlain 10) (FDp 2) true in
   let f := VFn (B"x") (EFn (B"y") (EBop 0 (EIdent (B"x")) (ELit (VNum n)))) ONone in
-  let m := [(B"f", f); (B"d", VObject (ICons (B"s") (VString (B"h\195\169")) (ICons (B"t") (VDate 2020 2 29) INil)))] in
-  sizes_okb sizes_x64 = true /\ wfc_vars as_names sizes_x64 m = true /\ wfs_vars m = true /\
-  forallb (fun kv => negb (known_C12 (snd kv))) m = true.
+  let m := [(B"f", f); (B"d", VObject (ICons (B"s") (VString (B"h\195\169")) (ICons (B"t") (VDate 2020 2 29) INil)));
+            (B"g", w_closure); (B"h", w_floor)] in
+  wfc_vars as_names cap_today sizes_x64 m = true /\ wfs_vars m = true /\
+  run (de_vars (cfg_today sizes_x64)) (ser_vars m) = Ok (m, []).
 Proof. vm_compute. repeat split; reflexivity. Qed.
